@@ -5,6 +5,7 @@ go 1.26
 require (
 	github.com/markusressel/fan2go v0.0.0
 	github.com/pterm/pterm v0.12.79
+	go.etcd.io/bbolt v1.4.0
 	pgregory.net/rapid v1.3.0
 )
 
@@ -36,7 +37,6 @@ require (
 	github.com/spf13/viper v1.20.1 // indirect
 	github.com/subosito/gotenv v1.6.0 // indirect
 	github.com/xo/terminfo v0.0.0-20220910002029-abceb7e1c41e // indirect
-	go.etcd.io/bbolt v1.4.0 // indirect
 	golang.org/x/exp v0.0.0-20240909161429-701f63a606c0 // indirect
 	golang.org/x/sys v0.31.0 // indirect
 	golang.org/x/term v0.30.0 // indirect
